@@ -19,6 +19,7 @@ type Clause struct {
 	Callee string // sink: callee key
 	Ord    int    // sink: ordinal (0 = all)
 	Optional bool // sink with #?: all sites, and it is fine if there is none
+	OnlyProps []string // clause restricted to these properties (label `[Cnn: name]`)
 	Text   string
 	Expr   CExpr
 	Label  string // optional label: `ensures [name] E`
@@ -269,6 +270,20 @@ func (cs *ContractSet) loadFile(path, pkg string, external bool) error {
 				if j := strings.Index(text, "]"); j > 0 {
 					cl.Label = text[1:j]
 					cl.Text = strings.TrimSpace(text[j+1:])
+					// `[C15 C02: name]`: the clause belongs to these properties only (the function may carry more)
+					if k := strings.Index(cl.Label, ":"); k > 0 {
+						only := strings.Fields(cl.Label[:k])
+						ok := len(only) > 0
+						for _, o := range only {
+							if len(o) != 3 || o[0] != 'C' {
+								ok = false
+							}
+						}
+						if ok {
+							cl.OnlyProps = only
+							cl.Label = strings.TrimSpace(cl.Label[k+1:])
+						}
+					}
 				}
 			}
 			curClause, curClauseIndent = cl, rl.indent
